@@ -63,6 +63,10 @@ func runC05(r *oblig.Report) {
 	e5path.ErrorProvenance(c.P, r, "R5.5", "graph", []string{"ErrModelCycle", "ErrTupleCycle", "ErrInvalidModel"}, fs)
 	r.Rule("R5.6", "instance-table", "no callee error is dropped on the way to Build's result", 9)
 	e5path.Propagation(c.P, r, "R5.6", fs, dropExceptions)
+	r.Rule("R1.6c", "instance-table", "loops of the weight calculation that collect (pending cycles, dependants, weights) run to completion unless they fail", 3)
+	e5path.CollectingLoopsCompleteIn(c.P, r, "R1.6c", "graph", fs)
+	r.Rule("C10.4", "instance-table", "operator nodes get a unique label derived from a random id made in the same invocation (two occurrences never share a node, or the verdict is about another graph)", 1)
+	(&e3order.Analyzer{P: c.P, R: r}).FreshLabels("C10.4", fs, []string{"GetOrAddNode", "AddNode"}, "uniqueLabel", "nodeType", 2)
 	r.Rule("C05.4", "path-enumeration", "AssignWeights starts the weight calculation from every node it has not visited yet", 1)
 	e5path.EveryNodeWeighed(c.P, r, "C05.4")
 	// the verdict is a function of the model alone: no state survives a Build call in the builder or in the package
@@ -92,6 +96,8 @@ func runC06(r *oblig.Report) {
 	e2own.Globals(c.P, r, "R2.2", fs)
 	e2own.ReceiverState(c.P, r, "R2.1r", "graph", "WeightedAuthorizationModelGraphBuilder", fs)
 	e2own.SharedSlices(c.P, r, "R2.3", build, fs, []string{"wildcards", "conditions"}, weightedStructs)
+	r.Rule("R1.6c", "instance-table", "loops of the weight calculation that collect (pending cycles, dependants, weights) run to completion unless they fail", 3)
+	e5path.CollectingLoopsCompleteIn(c.P, r, "R1.6c", "graph", fs)
 }
 
 func runC11(r *oblig.Report) {
@@ -152,6 +158,10 @@ func runC10(r *oblig.Report) {
 		"graph.WeightedAuthorizationModelGraphBuilder.parseThis", "graph.WeightedAuthorizationModelGraphBuilder.parseTupleToUserset"})
 	r.Rule("C10.7", "path-enumeration", "every union / intersection / exclusion occurrence gets its own operator node and its operands are attached to that node", 1)
 	e5path.OperatorNodePerOccurrence(c.P, r, "C10.7", []string{"graph.WeightedAuthorizationModelGraphBuilder.parseRewrite"})
+	r.Rule("C10.9", "path-enumeration", "the translation of a computed userset creates its edge on every path that does not fail", 1)
+	e5path.StepAlwaysCreatesEdge(c.P, r, "C10.9", []string{"graph.WeightedAuthorizationModelGraphBuilder.parseComputed"})
+	r.Rule("C10.8", "path-enumeration", "a condition is added to an existing edge only after it was found absent from that edge's list", 1)
+	e5path.NoDuplicateOnAppend(c.P, r, "C10.8", []string{"graph.WeightedAuthorizationModelGraph.UpsertEdge"}, "conditions")
 	// the graph mirrors THIS model: nothing kept from an earlier Build, in the package or in the builder
 	noPackageState(c.P, r, fs)
 	r.Rule("R2.1r", "instance-table", "builder methods never store into their receiver", 1)
@@ -201,6 +211,8 @@ func runC17(r *oblig.Report) {
 	e5path.EdgeIdentity(c.P, r, "C10.6", []string{"graph.AuthorizationModelGraphBuilder.upsertEdge", "graph.AuthorizationModelGraphBuilder.hasEdge"})
 	r.Rule("C10.7", "path-enumeration", "every union / intersection / exclusion occurrence gets its own operator node and its operands are attached to that node", 1)
 	e5path.OperatorNodePerOccurrence(c.P, r, "C10.7", []string{"graph.checkRewrite"})
+	r.Rule("C10.9", "path-enumeration", "the translation of a computed userset creates its edge on every path", 1)
+	e5path.StepAlwaysCreatesEdge(c.P, r, "C10.9", []string{"graph.parseComputed"})
 	r.Rule("C17.5", "instance-table", "PathExists answers with the library reachability query on the looked-up nodes in argument order", 1)
 	e5path.DelegatesTo(c.P, r, "C17.5", c.Entry("graph.AuthorizationModelGraph.PathExists"), "gonum.org/v1/gonum/graph/topo", "PathExistsIn", "GetNodeByLabel")
 	r.Rule("R2.1", "instance-table", "no plain-graph entry point writes memory reachable from its arguments", len(entries))
